@@ -100,6 +100,12 @@ if __name__ == "__main__":
 
         traceback.print_exc()
         print("HARNESS-ERROR: unexpected exception in the harness (see traceback)")
+        try:  # post-mortem trail for failures that only happen once in a while
+            with open("/var/tmp/verif-harness-errors.log", "a") as f:
+                f.write(f"--- {time.ctime()} argv={sys.argv} pid={os.getpid()} VERIF_REPO={os.environ.get('VERIF_REPO')}\n")
+                f.write(traceback.format_exc())
+        except Exception:
+            pass
         rc = 2
     sys.stdout.flush()
     sys.exit(rc)
